@@ -230,7 +230,14 @@ pub fn gen_boundary_message(rng: &mut Rng, target_total: usize, seals: &[Seal], 
     set_len(&mut b, l & 0xffff);
     let key = creds.key();
     for s in seals {
-        if b.len() + 40 > 20 + 65_535 {
+        // the largest body a header can declare is 65 532 bytes (a multiple of four): 65 552 in total
+        let add = match s {
+            Seal::Sha1 | Seal::BadSha1 => 24,
+            Seal::Sha256(n) | Seal::BadSha256(n) => 4 + n,
+            Seal::Fingerprint | Seal::BadFingerprint => 8,
+            Seal::OddLen(_, n) => 4 + (n + 3) / 4 * 4,
+        };
+        if b.len() + add > 20 + 65_532 {
             break;
         }
         seal(&mut b, *s, &key);
